@@ -27,6 +27,14 @@ class RemainingOperationsObserver(FeatureObserver):
             if FeatureType.MACHINES in self.features:
                 self.features[FeatureType.MACHINES][operation.machines, 0] += 1
 
+    def reset(self):
+        # The observer this one reads from may be subscribed (and therefore
+        # reset) after it. Its reset is idempotent.
+        self.dispatcher.create_or_get_observer(
+            UnscheduledOperationsObserver
+        ).reset()
+        super().reset()
+
     def update(self, scheduled_operation: ScheduledOperation):
         if FeatureType.JOBS in self.features:
             job_id = scheduled_operation.job_id
